@@ -128,6 +128,7 @@ type InitFile struct {
 	IsDir   bool
 	Role    string // multi | alone | other
 	Owner   string // owning test of a standalone file ("" unknown)
+	CRLF    bool   // multi-entry file whose lines end in CRLF (checked out with core.autocrlf)
 }
 
 type Proc struct {
